@@ -116,7 +116,20 @@ func (g *gen) safeFamily() string {
 func (g *gen) docs(spec *Spec, n int) {
 	for i := 0; i < n; i++ {
 		d := DocSpec{ID: fmt.Sprintf("d%d", i), JSON: work.DocJSON(i, g.w.Intn(3))}
+		g.shareStructure(&d)
 		spec.Docs = append(spec.Docs, d)
+	}
+}
+
+// shareStructure gives some documents shared sub-structures: the same object
+// under two names, and a sub-slice that shares its backing array (with spare
+// capacity) with another array of the document.
+func (g *gen) shareStructure(d *DocSpec) {
+	if g.w.Chance(1, 4) {
+		d.Alias = []string{"alias", "one"}
+	}
+	if g.w.Chance(1, 3) {
+		d.Subslice = []string{"page", "nums", "2"}
 	}
 }
 
@@ -157,6 +170,19 @@ func (g *gen) history(spec *Spec) {
 		spec.Exprs = append(spec.Exprs, es)
 	}
 	nops := g.w.Range(2, 12)
+	if g.k.Chance(1, 8) {
+		// soak: a long history on the same small pool, rich in failing
+		// evaluations (state that only builds up over many evaluations, or
+		// that is left behind by failures, needs length rather than variety)
+		spec.Kind = "history"
+		spec.MaxEvents = 400000
+		nops = g.w.Range(40, 90)
+		for i := 0; i < 2; i++ {
+			p := g.program("fail")
+			spec.Exprs = append(spec.Exprs, ExprSpec{ID: fmt.Sprintf("f%d", i), Text: p.Text, Family: p.Family, Exts: true})
+		}
+		ne = len(spec.Exprs)
+	}
 	var ops []Op
 	priv := 0
 	for len(ops) < nops {
@@ -228,9 +254,7 @@ func (g *gen) sharedExpr(spec *Spec, sharedDoc bool) {
 			nt = g.k.Range(2, 6)
 		}
 		d := DocSpec{ID: "d0", JSON: work.DocJSON(0, g.w.Intn(3))}
-		if g.w.Chance(1, 3) {
-			d.Alias = []string{"alias", "one"}
-		}
+		g.shareStructure(&d)
 		spec.Docs = append(spec.Docs, d)
 	} else {
 		g.docs(spec, nt)
@@ -521,9 +545,7 @@ func (g *gen) frameSeq(spec *Spec) {
 	nd := g.w.Range(1, 3)
 	for i := 0; i < nd; i++ {
 		d := DocSpec{ID: fmt.Sprintf("d%d", i), JSON: work.DocJSON(i, g.w.Intn(3))}
-		if g.w.Chance(1, 3) {
-			d.Alias = []string{"alias", "one"}
-		}
+		g.shareStructure(&d)
 		spec.Docs = append(spec.Docs, d)
 	}
 	fams := []string{"transform", "transform", "outside", "arrn", "arrs", "obj", "str", "fail", "num"}
@@ -540,7 +562,7 @@ func (g *gen) frameSeq(spec *Spec) {
 		// sub-structures of d0 registered as variables on their own
 		d0 := spec.Docs[0]
 		for _, m := range []string{"nums", "items", "one"} {
-			spec.Docs = append(spec.Docs, DocSpec{ID: "d0." + m, JSON: d0.JSON, Alias: d0.Alias, Member: m, Parent: "d0"})
+			spec.Docs = append(spec.Docs, DocSpec{ID: "d0." + m, JSON: d0.JSON, Alias: d0.Alias, Subslice: d0.Subslice, Member: m, Parent: "d0"})
 		}
 		k := g.w.Range(1, 3)
 		for i := 0; i < k; i++ {
